@@ -183,13 +183,21 @@ def elf_check(case):
             for d in (-1, 0, 1):
                 addrs.add(r["p_vaddr"] + d)
                 addrs.add(r["p_vaddr"] + r["p_filesz"] + d)
+    has_secs = any(r["sh_type"] == EI.SHT_PROGBITS and r["sh_addr"] for r in ref["shdrs"])
+
+    def qclass(a, want):
+        """which situation the queried address is in (keeps unrelated findings apart)"""
+        insec = any(r["sh_type"] == EI.SHT_PROGBITS and r["sh_addr"] and r["sh_addr"] <= a < r["sh_addr"] + r["sh_size"] for r in ref["shdrs"])
+        if has_secs and want is not None and not insec:
+            return "in-segment-outside-sections"
+        return ("sections" if has_secs else "no-sections") + ("/mapped" if want is not None else "/unmapped")
     for a in sorted(addrs):
         want, room = expected_offset(a)
         n += 1
         try:
             got = p.getfileoffset(a)
             if got != want:
-                F("query", "getfileoffset", "getfileoffset(%#x) = %r, the file maps it at %r" % (a, got, want))
+                F("query", "getfileoffset:" + qclass(a, want), "getfileoffset(%#x) = %r, the file maps it at %r" % (a, got, want))
         except Exception as ex:
             F("query-exc:%s@%s" % exc_sig(ex), "getfileoffset", "getfileoffset(%#x) raised %r" % (a, ex))
         if want is not None:
@@ -197,7 +205,7 @@ def elf_check(case):
             try:
                 got = p.data(a, k)
                 if bytes(got) != blob[want:want + k]:
-                    F("query", "data", "data(%#x,%d) = %r, file bytes %r" % (a, k, bytes(got), blob[want:want + k]))
+                    F("query", "data:" + qclass(a, want), "data(%#x,%d) = %r, file bytes %r" % (a, k, bytes(got), blob[want:want + k]))
             except Exception as ex:
                 F("query-exc:%s@%s" % exc_sig(ex), "data", "data(%#x,%d) raised %r" % (a, k, ex))
     return out, n
